@@ -15,7 +15,7 @@ import pipeline as P
 import qgen
 
 DRIVER = "FaxVerif/Cpp/Driver.lean"
-DRIVER_IMPORTS = ["FaxVerif.Cpp.Json", "FaxVerif.Gen.Render", "FaxVerif.C03.Spec", "FaxVerif.Cpp.Check", "FaxVerif.C04.Shapes", "FaxVerif.Gen.GuardedFirst"]  # what the driver imports
+DRIVER_IMPORTS = ["FaxVerif.Cpp.Json", "FaxVerif.Gen.Render", "FaxVerif.C03.Spec", "FaxVerif.Cpp.Check", "FaxVerif.C04.Shapes", "FaxVerif.Gen.GuardedFirst", "FaxVerif.Cpp.Parse", "FaxVerif.Cpp.ParseSpec"]  # what the drivers import (Cpp/Driver.lean and the parse-tie driver Cpp/ParseDriver.lean)
 EVENTS_PER_QUERY = 4
 
 
